@@ -32,6 +32,13 @@ def make_data(rs, n, d, gem):
         y = (G @ G.T).astype(float) + np.eye(n) * 2
         # all n*n entries distinct and the matrix NOT symmetric: a row-only / column-only / transposed gather is visible
         y = y + (np.arange(n * n).reshape(n, n) + 1) / float(4 * n * n)
+        # the same numbers in another memory layout (column-major, or the transposed view of a C array): which entry is A[i, j] does not
+        # depend on how the matrix is stored
+        lay = int(rs.randint(3))
+        if lay == 1:
+            y = np.asfortranarray(y)
+        elif lay == 2:
+            y = np.ascontiguousarray(y.T).T
     return X, y
 
 
